@@ -63,7 +63,8 @@ CLAIMED = {
              "(q limbs, qInvNeg, R^-1, one) are right; from_mont is a ring isomorphism from Montgomery representatives onto Z/r "
              "(add, sub, neg, double, mul, to/from Mont); Exp = power for every exponent; Inverse(0)=0 and Inverse returns an "
              "inverse whenever one exists (no primality assumed); mulByConstant, Cmp, LexicographicallyLargest; BatchInvert = "
-             "map inverse-or-zero for every list. Sqrt/Legendre 'nil iff non-residue' is NOT proved (needs r prime): "
+             "map inverse-or-zero for every list; Sqrt (Tonelli-Shanks as coded): every returned root squares to the input. "
+             "Sqrt/Legendre 'nil iff non-residue' is NOT proved (needs r prime): "
              "correspondence only. Correspondence: default (ADX asm), noadx and the portable generic functions vs limb model "
              "and integer model on boundary-heavy operands incl. aliasing.",
         note="amd64 assembly and the ADX/non-ADX dispatch are compared with the model, not verified. Sqrt, Legendre: correspondence only.",
